@@ -158,8 +158,28 @@ def worker(seed: int, n: int):
         # histories: the list has been materialised; now the model is edited and read again
         for step in range(r.randint(0, 2)):
             allv = sorted(P.objective.get_variables(), key=lambda v: v.name)
-            k = r.randrange(4)
+            k = r.randrange(5)
             try:
+                if k == 4:
+                    # the problem is SOLVED (whatever route its class takes), then a bound is edited, then the bounds are read again
+                    import warnings as _w
+                    from optyx.analysis import is_linear as _lin
+                    with _w.catch_warnings():
+                        _w.simplefilter("ignore")
+                        try:
+                            if _lin(P.objective) and all(_lin(c_.expr) for c_ in P.constraints):
+                                P.solve()
+                            else:
+                                P.solve(method="SLSQP", maxiter=2)
+                        except Exception:
+                            pass
+                    cont = [v_ for v_ in P.variables if getattr(v_, "domain", "continuous") == "continuous"] or list(P.variables)
+                    tv = r.choice(cont)             # (binary variables keep their [0, 1]: a separate observation checks exactly that)
+                    if getattr(tv, "domain", "continuous") == "continuous":
+                        tv.lb, tv.ub = r.choice([(0.5, 4.0), (None, 1.0), (-2.0, None), (None, None), (0, 0)])
+                    tag = "+solve+bound-edit"
+                    observe(tag)
+                    continue
                 if k == 0 and allv:
                     sub = r.sample(allv, max(1, len(allv) // 2))            # objective over a strict subset of what it used before
                     nobj = sub[0] * 2
